@@ -40,7 +40,7 @@ func (Prop) SelfTest() error {
 
 func (Prop) Rule() string {
 	return "E2 (full products, a fresh mode object per call): ECB/CBC/BC/OFBNLF 0..40 blocks; CFB/OFB/CTR every byte length 0..600 (thorough 0..2100); XTS IEEE and GB, enc and dec, every byte length 16..527 (thorough 16..2100), " +
-		"one case per length up to 143 and per 16-length window above so that a worker crash is attributed to its length; HCTR every length 16..300. " +
+		"one case per length up to 143 and per 16-length window above so that a worker crash is attributed to its length; HCTR every length 16..300 (thorough 16..600). " +
 		"Each x {disjoint, dst==src, dst 32 bytes longer than src} with src and dst ending at a PROT_NONE page and sentinel bytes in front " +
 		"x {key set A with IV/tweak 0^128 and 1^128, key set B with a pattern IV}; CTR additionally with the 72 counters 2^k-j (k in 32,64,96,128; j=0..17) " +
 		"x wrappers {fused: the block as sm4.NewCipher returns it; hidden: a struct exposing only BlockSize/Encrypt/Decrypt; conc (XTS, HCTR): only concurrentBlocks visible, the library's own EncryptBlocks/DecryptBlocks underneath, " +
@@ -65,9 +65,9 @@ func (Prop) Assumptions() []string {
 
 func (Prop) Run(c *engine.Ctx) {
 	quick := c.Quick()
-	streamMax, xtsMax, depth := 600, 527, 3
+	streamMax, xtsMax, hctrMax, depth := 600, 527, 300, 3
 	if !quick {
-		streamMax, xtsMax, depth = 2100, 2100, 4
+		streamMax, xtsMax, hctrMax, depth = 2100, 2100, 600, 4
 	}
 
 	// ---- (a)/(c)/(d) E2, prefix-stable modes
@@ -134,11 +134,11 @@ func (Prop) Run(c *engine.Ctx) {
 	// ---- E2, HCTR (+ tweak dependence)
 	for _, p := range params() {
 		p := p
-		for lo := 16; lo <= 300; lo += 48 {
+		for lo := 16; lo <= hctrMax; lo += 48 {
 			lo := lo
 			hi := lo + 47
-			if hi > 300 {
-				hi = 300
+			if hi > hctrMax {
+				hi = hctrMax
 			}
 			c.Case(fmt.Sprintf("e2/hctr/%s/len=%d..%d", p.name, lo, hi), func(t *engine.T) { e2HCTR(t, p, lo, hi) })
 			c.Case(fmt.Sprintf("e2/hctr-tweak-dependence/%s/len=%d..%d", p.name, lo, hi), func(t *engine.T) { hctrTweakDependence(t, p, lo, hi) })
